@@ -1099,6 +1099,46 @@ impl Api for Server {
   ) -> Result<SimulateRawTransactionResult, jsonrpc_core::Error> {
     let mut balance_change: i64 = 0;
 
+    // Verification hook (feature `verif`): compare scripts with the wallet's
+    // addresses on the node's own network (the code below assumes mainnet),
+    // and count outputs that are not addresses as not ours.
+    #[cfg(feature = "verif")]
+    if cfg!(feature = "verif") {
+      for tx in txs.iter().cloned().map(parse_hex_tx) {
+        let state = self.state();
+
+        let ours = |script_pubkey: &ScriptBuf| {
+          Address::from_script(script_pubkey, self.network)
+            .map(|address| state.is_wallet_address(&address))
+            .unwrap_or(false)
+        };
+
+        for input in &tx.input {
+          let Some(txout) = state
+            .transactions
+            .get(&input.previous_output.txid)
+            .and_then(|tx| tx.output.get(usize::try_from(input.previous_output.vout).unwrap()))
+          else {
+            return Err(Self::not_found());
+          };
+
+          if ours(&txout.script_pubkey) {
+            balance_change -= i64::try_from(txout.value.to_sat()).unwrap();
+          }
+        }
+
+        for output in &tx.output {
+          if ours(&output.script_pubkey) {
+            balance_change += i64::try_from(output.value.to_sat()).unwrap();
+          }
+        }
+      }
+
+      return Ok(SimulateRawTransactionResult {
+        balance_change: SignedAmount::from_sat(balance_change),
+      });
+    }
+
     for tx in txs.into_iter().map(parse_hex_tx) {
       for input in tx.input {
         let tx = self
